@@ -232,6 +232,25 @@ Section Sound.
       + rewrite (nth_map_opt fst). rewrite (nth_map_opt (finish_disk clearpast inf)). rewrite A. reflexivity.
       + apply finish_sound. exact B.
   Qed.
+  (* the identity rule seen from the listing: a file that keeps a BLK block records an entry e of the listing whose size, seconds
+     AND nanoseconds are those of the old record (only an old nanosecond field that is "unknown" (-1) accepts any value), found
+     under the same path or, with usable inodes, the same inode *)
+  Lemma identity_needs_stamp usable d0 L dk :
+    disk_sound usable d0 L dk ->
+    forall f, In f (cd_files dk) -> (exists b, In b (cf_blocks f) /\ fb_state b = SBlk) ->
+    exists e f0, In e L /\ le_kind e = LFile /\ ematch e f /\ In f0 (cd_files d0) /\ cf_blocks f = cf_blocks f0 /\
+                 le_size e = cf_size f0 /\ le_mtime e = cf_mtime f0 /\ (le_nsec e = cf_nsec f0 \/ cf_nsec f0 = (-1)%Z) /\
+                 (le_name e = cf_name f0 \/ (usable = true /\ le_inode e = cf_inode f0)).
+  Proof.
+    intros S f Hf Hb. destruct (ds_files _ _ _ _ S f Hf) as [e [He [Hk Hm]]].
+    destruct (ds_blk _ _ _ _ S f Hf Hb) as [f0 [Hf0 [B [Sz [Mt [_ [Ns Id]]]]]]].
+    pose proof Hm as [Mn [Ms [Mm [Mns Mi]]]].
+    exists e, f0. split; [exact He|]. split; [exact Hk|]. split; [exact Hm|]. split; [exact Hf0|]. split; [exact B|].
+    split; [congruence|]. split; [congruence|]. split.
+    - destruct Ns as [Ns|Ns]; [left; congruence | right; exact Ns].
+    - destruct Id as [Id|[U Id]]; [left; congruence | right; split; [exact U | congruence]].
+  Qed.
+
   (* C19 identity_keeps, extracted from disk_sound *)
   Theorem identity_keeps usable c listing o :
     scan basef bs clearpast nocopy inf usable c listing = Some o ->
